@@ -101,8 +101,16 @@ func (x *Exec) callFunction(st *State, ins ssa.Instruction, fn *ssa.Function, bi
 	}
 	if fn.Pkg != nil && x.P.IsRepoPkg(fn.Pkg.Pkg.Path()) {
 		fc := x.P.Contracts[full]
+		if fc == nil && len(fn.Blocks) > 0 && len(x.loopsOf(fn)) == 0 && !x.onStack(st, fn) && len(st.Frames) < 6 {
+			// a loop-free repo function without a contract (typically a helper extracted by a refactoring) is verified
+			// in the context of its caller: its body is executed in place, so the caller's obligations speak about what
+			// the helper really does instead of failing for want of a contract
+			x.Inlined[x.P.ShortName(fn)+" (no contract: body verified at each call site)"] = true
+			x.inline(st, ins, fn, nil, args, cont)
+			return
+		}
 		if fc == nil {
-			// no contract: a named repo function must have one (modularity); report and use default
+			// no contract and not inlinable (loops need invariants, recursion): modularity demands a contract
 			x.emit(st, "nocontract", x.P.ShortName(fn), "false", "")
 			cont(st, x.freshResults(st, "nc", fn.Signature.Results()))
 			return
@@ -680,6 +688,15 @@ func (x *Exec) externSig(full string) *types.Signature {
 }
 
 // ---------- inlining
+
+func (x *Exec) onStack(st *State, fn *ssa.Function) bool {
+	for _, f := range st.Frames {
+		if f.Fn == fn {
+			return true
+		}
+	}
+	return false
+}
 
 func (x *Exec) inline(st *State, ins ssa.Instruction, fn *ssa.Function, bindings []Value, args []Value, cont func(*State, Value)) {
 	if len(fn.Blocks) == 0 {
